@@ -58,6 +58,9 @@ def menu(kind, ds=None):
          (["obs", "fcst"], 1, "all", None), (["fcst"], 1, "no", 0), (["obs"], 0, "time", 1),
          (["obs", "fcst"], 0, "month", 0), (["obs"], 1, "all", None),
          (["obs", "fcst"], 1, "leadtime", 1), (["obs"], 0, "time", 0)]
+    # axes of the same dimension whose slice values can coincide (lead time 0 h / lead-time day 0; a run at 00 UTC / its day / the
+    # month or year starting that day) while the slices differ
+    m += [(["obs", "fcst"], 0, "leadtimeday", 0), (["obs", "fcst"], 0, "day", 0), (["obs"], 1, "year", 0)]
     if kind == "ens":
         # quantiles and probabilities that the files do not store are derived from the ensemble members
         m[2] = ([("q", 0.5)], 0, "all", None)
@@ -123,6 +126,13 @@ def make_ds(rng, kind):
         return ds
     ds = gen.make_dataset(rng, n_inputs=2, fmt="text", clim=(kind == "clim"), pit=(kind == "pit"), miss=0.2 if kind != "ens" else 0.05,
                           sparse=0.1, max_t=3, max_l=3, max_s=2, same_dims=False, ens=(kind == "ens"), members=3)
+    # the first lead time is 0 h (analysis time): slice 0 of the lead-time axis and slice 0 of the lead-time-day axis then carry
+    # the same axis value while covering different lead times
+    lmin = min(l for i in refmodel.all_inputs(ds) for l in i["leadtimes"])
+    if lmin != 0:
+        for i in refmodel.all_inputs(ds):
+            if lmin in i["leadtimes"]:
+                gen.rename_leadtime(i, lmin, 0)
     # at least two times and two lead times in common so that every menu entry exists
     return ds
 
